@@ -1,0 +1,59 @@
+//go:build verif
+
+package roles
+
+import (
+	"shanhu.io/g/errcode"
+)
+
+// VerifRoleState is the stored record of one role as the verification
+// harness needs to see it: the fields of the passcode that the public API
+// hides (attempt counter, consumed flag) next to the ones it shows.
+type VerifRoleState struct {
+	Found    bool
+	Disabled bool
+	KeyIDs   []string // IDs of the public keys of the registered identity.
+
+	HasCode  bool
+	Code     string
+	Valid    int64 // Unix nanoseconds.
+	Expire   int64 // Unix nanoseconds.
+	Consumed bool
+	Tried    int
+}
+
+// VerifState reads the stored record of a role. It does not modify anything.
+func (b *Roles) VerifState(name string) (*VerifRoleState, error) {
+	r, err := b.get(name)
+	if err != nil {
+		if errcode.IsNotFound(err) {
+			return &VerifRoleState{}, nil
+		}
+		return nil, err
+	}
+	s := &VerifRoleState{Found: true}
+	if r.Role != nil {
+		s.Disabled = r.Role.Disabled
+	}
+	if r.Identity != nil {
+		for _, k := range r.Identity.PublicKeys {
+			s.KeyIDs = append(s.KeyIDs, k.ID)
+		}
+		if s.KeyIDs == nil {
+			s.KeyIDs = []string{}
+		}
+	}
+	if c := r.PassCode; c != nil {
+		s.HasCode = true
+		s.Code = c.Code
+		if c.Valid != nil {
+			s.Valid = c.Valid.Time().UnixNano()
+		}
+		if c.Expire != nil {
+			s.Expire = c.Expire.Time().UnixNano()
+		}
+		s.Consumed = c.Consumed
+		s.Tried = c.Tried
+	}
+	return s, nil
+}
